@@ -86,7 +86,17 @@ def mod_for(mod: Any, d: Any) -> Any:
 def set_value(mod: Any, obj: Any, m: Message, v: Dict[str, Any], raw_enums: bool = False) -> None:
     """Assign value tree v to generated message instance obj (documented attribute API)."""
     for f in m.sorted_fields():
-        setattr_typed(mod, obj, f.name, f.type, v[f.name], raw_enums)
+        try:
+            setattr_typed(mod, obj, f.name, f.type, v[f.name], raw_enums)
+        except (AttributeError, IndexError) as e:
+            # the value tree follows the schema: an object that cannot take it does not have the declared shape
+            from .runner import Violation
+
+            raise Violation(
+                f"generated Python object of {m.name} does not have the shape the schema declares at field {f.name}: {type(e).__name__}: {e}",
+                {"value": v},
+                signature=f"py-shape:{type(e).__name__}",
+            )
 
 
 def _conv_leaf(mod: Any, t: Any, x: Any, raw_enums: bool) -> Any:
